@@ -17,7 +17,7 @@ func init() {
 		Run:   runC11,
 		Explanation: "C11.wire: bit-provenance evaluation of Date.MarshalBinary: 7 bytes; [0] = constant 1; [1..4] = bits 31..24, 23..16, 15..8, 7..0 of year+1; [5] = month+1; [6] = day+1. " +
 			"C11.inv: substituting those seven abstract bytes for data[0..6] in UnmarshalBinary yields the identity on every field modulo 2^32 / 2^8 (calendar guard folded through the New summary). " +
-			"C11.strict: decision table over (len==0, data[0]==version, len==7): the failing valuations return errors wrapping ErrInvalidLength, ErrUnsupportedVersion, ErrInvalidLength; all field stores are dominated by the guards. " +
+			"C11.strict: decision table over the orderings (len ? 0, data[0] ? version, len ? 7), each −1/0/1 so that a test written with < or > is tabulated too: the failing valuations return errors wrapping ErrInvalidLength, ErrUnsupportedVersion, ErrInvalidLength; all field stores are dominated by the guards. " +
 			"C11.range: every store into Date.month/Date.day in the package stores a component of time.Time.Date() minus one, the constant 0 under t.IsZero(), or a decoded byte that passed a calendar-validity guard.",
 		NotDecided:  []string{"nothing value-level beyond the time.Date summary"},
 		Assumptions: []string{"time.Date is the identity on in-range components; Time.Date() returns a real calendar date"},
@@ -229,11 +229,24 @@ func ruleC11Strict(e *Env) {
 		}
 		return "", false
 	}
+	// every atom is an ordering (the code may test with <, > as well as ==, !=): −1 / 0 / 1, restricted to what bytes
+	// and lengths can be and to mutually consistent length atoms
+	domain := func(k string) []int {
+		if strings.HasSuffix(k, "==0") {
+			return []int{0, 1} // nothing is below 0
+		}
+		return []int{-1, 0, 1}
+	}
 	prune := func(assign map[string]int) bool {
 		n := 0
 		for k, v := range assign {
 			if strings.HasPrefix(k, "len==") && v == 0 {
 				n++
+			}
+		}
+		if v, ok := assign["len==0"]; ok && v == 0 {
+			if w, ok := assign["len==7"]; ok && w != -1 {
+				return false
 			}
 		}
 		return n <= 1
@@ -264,7 +277,7 @@ func ruleC11Strict(e *Env) {
 		}
 		return 0, false, false
 	}
-	leaves, err := extractTree(e.P.SSA, ub, mk, sums, fixed, keyOf, binDomain, prune)
+	leaves, err := extractTree(e.P.SSA, ub, mk, sums, fixed, keyOf, domain, prune)
 	treeSnapshot = nil
 	if err != nil {
 		e.S.Unk(rule, site, "table", err.Error(), e.Pos(ub))
